@@ -40,7 +40,12 @@
 (* Three budgets bound the enumeration: MaxUnits (rules, declarations,     *)
 (* comments, ... in the whole document), MaxFeat (productions beyond the    *)
 (* simplest selector `a` / value `b` / prelude) and MaxWs (optional         *)
-(* separators).  -simulate draws deep derivations from the same spec.       *)
+(* separators); the default alternatives (selector `a`, value `b`, the      *)
+(* simplest prelude of the at-rule kind, no optional separator) are free.  *)
+(* -simulate draws deep derivations from the same spec (EndBias keeps the  *)
+(* lists from ending early, MinAtoms drops the short documents).  After an *)
+(* at-keyword the run is required when the next token would otherwise be   *)
+(* glued to the name (NeedsSep), optional before a string or a hash.       *)
 (***************************************************************************)
 EXTENDS Integers, Sequences, FiniteSets, TLC, Json, CSV, IOUtils
 
